@@ -221,14 +221,107 @@ def accept (c : Board.Case) (m : Mon) (t : Nat) : Option Exc → Bool
 def logsOk (m : Mon) (o : Obs) : Bool :=
   o.ubLog == (if m.ubSet then some m.ulog else none) && o.lnxLog == (if m.lnxSet then some m.llog else none)
 
-/-- **C18** on an observation: `poweroff` is the last event; the events before it are a trace
-    the monitor accepts; the outcome and the bootlogs fit the state it is in -/
-def C18 (c : Board.Case) (o : Obs) : Bool :=
+/-! ### cooperative consoles
+
+    A console is cooperative for a configuration when, at power-on and in answer to every write
+    of the protocol, it shows a non-empty output that completes what tbot waits for exactly at
+    its end (never earlier — any garbage may precede the prompt, any fragmentation, any delays)
+    and within the time-out in force (`boot_timeout`, `no_password_timeout`; one poll read for the
+    U-Boot prompt).  `coopB` decides it; `Props/C18Coop.lean` proves that the model then returns
+    normally (`coop_success`), and `C18` demands the same of every observation. -/
+
+def outTotal (o : Out) : Nat := (o.map (·.1)).sum
+def outBytes (o : Out) : Bytes := (o.map (·.2)).flatten
+
+def endsB (test : Bytes → Bool) (o : Out) : Bool :=
+  !o.isEmpty && test (outBytes o)
+    && (List.range (outBytes o).length).all fun k => k == 0 || !test ((outBytes o).take k)
+
+def fitsB (d : Nat) : Option Nat → Bool
+  | none => true
+  | some r => decide (d < r)
+
+def afterB (d : Nat) : Option Nat → Option Nat := Option.map (· - d)
+
+def loginT (l : LnxCfg) : Bytes → Bool := fun buf => (Chan.promptEnd (Chan.anchor (.lit l.login)) buf).isSome
+def pwT (l : LnxCfg) : Bytes → Bool := fun buf => (Chan.promptEnd (Chan.anchor l.pwPrompt) buf).isSome
+def askT (banner : Bytes) : Bytes → Bool := fun buf => (Chan.firstMatch buf 0 [.lit banner]).isSome
+def autoT (p : Pat) : Bytes → Bool := fun buf => (Chan.promptEnd (Chan.anchor p) buf).isSome
+def ubPromptT (u : UbCfg) : Bytes → Bool := fun buf => (Chan.promptEnd (.lit u.prompt) buf).isSome
+
+def coopPwB (l : LnxCfg) (stages : List Stage) (budget : Option Nat) : Bool :=
+  match l.password with
+  | none => true
+  | some _ =>
+    match stages with
+    | s :: _ => s.trig.fires (l.user ++ [13]) && endsB (pwT l) s.out && fitsB (outTotal s.out) budget
+                  && fitsB (outTotal s.out) l.noPw
+    | [] => false
+
+def coopLoginB (l : LnxCfg) (o : Out) (stages : List Stage) (budget : Option Nat) : Bool :=
+  endsB (loginT l) o && fitsB (outTotal o) budget &&
+  if l.delay = 0 then coopPwB l stages (afterB (outTotal o) budget)
+  else fitsB l.delay (afterB (outTotal o) budget) &&
+    match stages with
+    | s :: rest => s.trig.fires ([] ++ [13]) && endsB (loginT l) s.out
+        && fitsB (outTotal s.out) (afterB l.delay (afterB (outTotal o) budget))
+        && coopPwB l rest (afterB (outTotal s.out) (afterB l.delay (afterB (outTotal o) budget)))
+    | [] => false
+
+def coopLnxB (l : LnxCfg) (o : Out) (stages : List Stage) : Bool :=
+  match l.askfirst with
+  | none => coopLoginB l o stages l.timeout
+  | some banner =>
+    endsB (askT banner) o && fitsB (outTotal o) l.timeout &&
+    match stages with
+    | s :: rest => s.trig.fires ([] ++ [13]) && coopLoginB l s.out rest (afterB (outTotal o) l.timeout)
+    | [] => false
+
+def coopUbB (u : UbCfg) (init : Out) (stages : List Stage) (k : List Stage → Bool) : Bool :=
+  match u.autoboot with
+  | none => endsB (ubPromptT u) init && decide (outTotal init < Params.ubootPollRead) && k stages
+  | some p =>
+    endsB (autoT p) init && fitsB (outTotal init) u.timeout &&
+    match stages with
+    | s :: rest => s.trig.fires u.keys && endsB (ubPromptT u) s.out && decide (outTotal s.out < Params.ubootPollRead) && k rest
+    | [] => false
+
+/-- the echo of `boot`: the shortest prefix of the pieces that has the read-back length -/
+def splitEcho : Nat → Out → Option (Out × Out)
+  | 0, o => some ([], o)
+  | _ + 1, [] => none
+  | n + 1, (dt, d) :: r =>
+    if d.length ≤ n + 1 then (splitEcho (n + 1 - d.length) r).map fun x => ((dt, d) :: x.1, x.2) else none
+
+def coopBootB (l : LnxCfg) (stages : List Stage) : Bool :=
+  match stages with
+  | s :: rest =>
+    s.trig.fires bootLine &&
+    match splitEcho (bootLine.length + Chan.countNl bootLine) s.out with
+    | some (_, o2) => coopLnxB l o2 rest
+    | none => false
+  | [] => false
+
+def coopB (c : Board.Case) : Bool :=
+  match c.ub, c.lnx with
+  | none, none => false
+  | some u, none => coopUbB u c.init c.stages fun _ => true
+  | none, some l => coopLnxB l c.init c.stages
+  | some u, some l => coopUbB u c.init c.stages (coopBootB l)
+
+/-- `poweroff` is the last event; the events before it are a trace the monitor accepts; the
+    outcome and the bootlogs fit the state it is in -/
+def monitorOk (c : Board.Case) (o : Obs) : Bool :=
   match o.evs.getLast? with
   | some (.poff t) =>
     match steps c {} o.evs.dropLast with
     | some m => accept c m t o.res && logsOk m o
     | none => false
   | _ => false
+
+/-- **C18** on an observation: the monitor accepts it, and against a cooperative console
+    bring-up returned normally -/
+def C18 (c : Board.Case) (o : Obs) : Bool :=
+  monitorOk c o && (!coopB c || o.res.isNone)
 
 end Spec
